@@ -49,13 +49,14 @@ def make_handler_klass(drv):
     class ScriptedHandler(HttpProtocolHandler):
         def __init__(self, *a, **kw):
             super().__init__(*a, **kw)
-            sc = drv.script
+            sc = getattr(self.work.connection, 'script', None) or drv.script
             self.s_init = sc.get('init')
             self.s_get = list(sc.get('get', []))
             self.s_handle = list(sc.get('handle', []))
             self.s_inactive = list(sc.get('inactive', []))
             self.hlog = []
             drv.handler = self
+            drv.handlers[self.work.connection.fd] = self
 
         def initialize(self):
             self.hlog.append(['init'])
@@ -120,6 +121,7 @@ class HDriver:
         self.flush_left = None
         self.snapshot = None
         self.handler = None
+        self.handlers = {}
         self.sock = SIM.FakeSock('client')
         self.sock.fd = CLIENT_FD
         for x in case['script'].get('send', []):
@@ -160,7 +162,7 @@ class HDriver:
             if not self.flush_left:
                 raise X.EndOfSchedule()
             ok = self.flush_left.pop(0)
-            return [(CLIENT_FD, select.EPOLLOUT)] if ok else []
+            return [(self.sock.fd, select.EPOLLOUT)] if ok else []
         return [(fd, (select.EPOLLIN if m & 1 else 0) | (select.EPOLLOUT if m & 2 else 0)) for fd, m in self.cur().get('ready', [])]
 
     # ---- threaded: the real HttpProtocolHandler.run
@@ -237,6 +239,95 @@ class HDriver:
             live = len(ex.works) > 0
             return dict(obs=self.observe(), status=status, live=live, leftover=dict(registered=len(ex.registered_events_by_work_ids),
                                                                                      sel=len(ex.selector._fd_to_key)))
+        finally:
+            for t in list(ex.unfinished):
+                t.cancel()
+            try:
+                ex.loop.run_until_complete(asyncio.sleep(0))
+            except BaseException:
+                pass
+            ex.loop.close()
+            logging.disable(0)
+
+
+def make_sock(fd, script):
+    sock = SIM.FakeSock('client')
+    sock.fd = fd
+    sock.script = script
+    for x in script.get('send', []):
+        sock.script_send(x if isinstance(x, int) else SIM.io_error(x))
+    return sock
+
+
+def observe_handler(h, sock):
+    return dict(log=[list(x) for x in h.hlog] if h else [],
+                sent=[[a, b] for (what, *rest) in sock.log if what == 'send' for a, b in [rest]],
+                buf=[len(mv) for mv in h.work.buffer] if h else [], closed=sock.closed)
+
+
+class MultiDriver:
+    """several scripted handlers in ONE real executor loop: events[k] may carry an arriving connection"""
+    def __init__(self, case):
+        self.case = case
+        self.events = case['events']
+        self.k = -1
+        self.handlers = {}
+        self.handler = None
+        self.script = {}
+        self.socks = {}
+        self.in_flush = False
+
+    def cur(self):
+        return self.events[self.k] if 0 <= self.k < len(self.events) else {}
+
+    def cur_kfail(self):
+        return set(self.cur().get('kfail', []))
+
+    def on_is_inactive(self):
+        pass
+
+    def on_select(self):
+        conn = self.cur().get('conn')
+        if conn is not None:
+            sock = make_sock(conn['fd'], conn['script'])
+            self.socks[conn['fd']] = sock
+            self.ex.work_queue.put((sock, ('1.2.3.4', 5555)))
+        return [(fd, (select.EPOLLIN if m & 1 else 0) | (select.EPOLLOUT if m & 2 else 0)) for fd, m in self.cur().get('ready', [])]
+
+    def run(self):
+        from proxy.core.work.fd import LocalFdExecutor
+        from proxy.common.backports import NonBlockingQueue
+        import proxy.core.work.threadless as TL
+        flags = X.get_flags()
+        flags.work_klass = make_handler_klass(self)
+        logging.disable(logging.CRITICAL)
+        ex = LocalFdExecutor(iid='1', work_queue=NonBlockingQueue(), flags=flags)
+        ex._loop = asyncio.new_event_loop()
+        self.ex = ex
+        try:
+            ex.selector = X.FakeSelector(self)
+            ex.wait_timeout = 0.001
+            tl = self.case.get('tick_limit', 39)
+            ex.cleanup_inactive_timeout = tl * (TL.DEFAULT_SELECTOR_SELECT_TIMEOUT + ex.wait_timeout) - 1e-9
+            orig = ex._run_once
+            drv = self
+            async def counted():
+                drv.k += 1
+                if drv.k >= len(drv.events):
+                    raise X.EndOfSchedule()
+                return await orig()
+            ex._run_once = counted
+            try:
+                ex.loop.run_until_complete(ex._run_forever())
+                status = 'stopped'
+            except X.EndOfSchedule:
+                status = 'running'
+            except Exception as e:
+                status = 'crashed:%s' % type(e).__name__
+            per = {}
+            for fd, sock in self.socks.items():
+                per[str(fd)] = dict(obs=observe_handler(self.handlers.get(fd), sock), live=fd in ex.works)
+            return dict(status=status, per=per)
         finally:
             for t in list(ex.unfinished):
                 t.cancel()
@@ -332,6 +423,45 @@ def gen_wild(rng):
     return c
 
 
+def gen_multi(rng):
+    """2-3 tame connections in one executor; by construction at least two of them ask for teardown in the SAME loop
+    iteration (server-initiated: handle_events returns True / raises), the situation where one executor pass must
+    clean up several works"""
+    n_conn = rng.choice([2, 2, 3])
+    T = rng.randrange(n_conn + 1, n_conn + 5)            # the iteration in which the teardowns coincide
+    total = T + rng.randrange(1, 4)
+    conns = []
+    for j in range(n_conn):
+        fd = 41 + 10 * j
+        ups = [fd * 10, fd * 10 + 1]
+        steps = T - j                                     # handle_events calls before and including the last one
+        get, cur = [], []
+        for k in range(total + 2):
+            if len(cur) < 2 and rng.random() < 0.3:
+                cur.append(ups[len(cur)])
+            get.append({'ev': [[fd, rng.choice([1, 3])]] + [[u, 1] for u in cur]})
+        handle = [{'queue': [rng.randrange(1, 6)] if rng.random() < 0.5 else [], 'flush': True, 'ret': False} for _ in range(steps - 1)]
+        together = j < 2 or rng.random() < 0.6
+        last = rng.choice([{'queue': [], 'flush': True, 'ret': True}, {'queue': [], 'flush': False, 'raise': rng.choice([1, 5])}])
+        if together:
+            handle.append(last)
+        else:
+            handle += [{'queue': [], 'flush': True, 'ret': False}, last]
+        conns.append(dict(fd=fd, arrive=j, script=dict(get=get, handle=handle, inactive=[], send=[rng.choice([2, 8, 8]) for _ in range(rng.randrange(0, 4))])))
+    events = []
+    for k in range(total):
+        ev = dict(clock=100 + 3 * k, flush=[True] * 6)
+        live = [c for c in conns if c['arrive'] < k]
+        # every client is readable and writable in every iteration: all handlers are called in lock step
+        ev['ready'] = [[c['fd'], 3] for c in live]
+        rng.shuffle(ev['ready'])
+        for c in conns:
+            if c['arrive'] == k:
+                ev['conn'] = dict(fd=c['fd'], script=c['script'])
+        events.append(ev)
+    return dict(kind='multi', events=events, conns=[c['fd'] for c in conns], tick_limit=rng.choice([3, 39]), T=T)
+
+
 def generate(rng, tier):
     quick = tier != 'thorough'
     cases = []
@@ -339,6 +469,8 @@ def generate(rng, tier):
         cases.append(gen_tame(rng))
     for _ in range(70 if quick else 2000):
         cases.append(gen_wild(rng))
+    for _ in range(40 if quick else 1200):
+        cases.append(gen_multi(rng))
     for k in range(2 if quick else 6):
         cases.append(dict(kind='handoff', n=k))
     return cases
@@ -348,12 +480,26 @@ def generate(rng, tier):
 def run_impl(case):
     if case['kind'] == 'handoff':
         return TEN.run_handoff(case)
+    if case['kind'] == 'multi':
+        joint = MultiDriver(case).run()
+        threaded = {}
+        for j, ev in enumerate(case['events']):
+            c = ev.get('conn')
+            if c is None:
+                continue
+            # the same connection under the thread-per-connection driver: its own selector only knows its own descriptors
+            single = dict(kind='tame', script=c['script'], events=[dict(clock=ev.get('clock', 0))] + [
+                {k: v for k, v in e.items() if k != 'conn'} for e in case['events'][j + 1:]], tick_limit=case.get('tick_limit', 39))
+            d = HDriver(single)
+            d.sock.fd = c['fd']
+            threaded[str(c['fd'])] = d.run_threaded()
+        return dict(joint=joint, threaded=threaded)
     t = HDriver(case).run_threaded()
     l = HDriver(case).run_threadless()
     return dict(threaded=t, threadless=l)
 
 
-def coq_hwork(s):
+def coq_hwork(s, fd=None):
     def ev(x):
         return '(inr %d)' % x['raise'] if 'raise' in x else '(inl %s)' % X.coq_fdmasks(x['ev'])
     def he(x):
@@ -364,7 +510,7 @@ def coq_hwork(s):
     def sd(x):
         return '(inl %d)' % x if isinstance(x, int) else '(inr %d)' % errno_of(x)
     return '(mk_hwork %d%%Z %s %s %s %s %s)' % (
-        CLIENT_FD, C.coq_option(C.coq_N, s.get('init')), C.coq_list(ev(x) for x in s.get('get', [])),
+        CLIENT_FD if fd is None else fd, C.coq_option(C.coq_N, s.get('init')), C.coq_list(ev(x) for x in s.get('get', [])),
         C.coq_list(he(x) for x in s.get('handle', [])), C.coq_list(bo(x) for x in s.get('inactive', [])),
         C.coq_list(sd(x) for x in s.get('send', [])))
 
@@ -391,6 +537,23 @@ def coq_term(case, out):
     if case['kind'] == 'handoff':
         t = TEN.coq_handoff(case, out)
         return 'C17F (%s)' % t[len('C10F '):] if t.startswith('C10F ') else None
+    if case['kind'] == 'multi':
+        j = out['joint']
+        if j['status'] != 'running':
+            return None
+        sched = C.coq_list('(%s, %s)' % (coq_tevent(e), 'None' if e.get('conn') is None else '(Some %s)' % coq_hwork(e['conn']['script'], e['conn']['fd']))
+                           for e in case['events'])
+        x = C.coq_list('(%s%%Z, %s, %s)' % (fd, coq_hobs(v['obs']), C.coq_bool(v['live'])) for fd, v in j['per'].items())
+        terms = ['C17M (MThreadlessMulti %d %s %s)' % (case.get('tick_limit', 39), sched, x)]
+        for ev_i, e in enumerate(case['events']):
+            c = e.get('conn')
+            if c is None:
+                continue
+            t = out['threaded'][str(c['fd'])]
+            terms.append('C17M (MThreaded %s %s %s %s %d)' % (
+                coq_hwork(c['script'], c['fd']), coq_tevent(dict(clock=e.get('clock', 0))),
+                C.coq_list(coq_tevent(x2) for x2 in case['events'][ev_i + 1:]), coq_hobs(t['obs']), t['status']))
+        return terms
     w = coq_hwork(case['script'])
     e0 = coq_tevent(case['events'][0])
     evs = C.coq_list(coq_tevent(e) for e in case['events'][1:])
@@ -411,11 +574,26 @@ def is_tame(case):
 def oracle(case, out):
     if case['kind'] == 'handoff':
         return TEN.oracle(case, out)
+    if case['kind'] == 'multi':
+        j = out['joint']
+        if j['status'] != 'running':
+            return 'the executor loop ended: %s' % j['status']
+        for fd, v in j['per'].items():
+            f = compare_modes(out['threaded'][fd], dict(obs=v['obs'], live=v['live']))
+            if f:
+                return 'connection on descriptor %s (one of %d sharing the executor): %s' % (fd, len(j['per']), f)
+        return None
     t, l = out['threaded'], out['threadless']
     if l['status'] != 'running':
         return 'the executor loop ended: %s' % l['status']
     if not is_tame(case):
         return None
+    return compare_modes(t, l)
+
+
+def compare_modes(t, l):
+    """per-connection transcript under the thread-per-connection driver vs under the executor: same calls in the same
+    order, same data events towards the client before the exit, same exit, close present in both or in neither"""
     to, lo = t['obs'], l['obs']
     # same exit
     t_over = t['status'] != 0
@@ -440,6 +618,9 @@ def oracle(case, out):
 def nontrivial(case, out):
     if case['kind'] == 'handoff':
         return True
+    if case['kind'] == 'multi':
+        gone = [v for v in out['joint']['per'].values() if not v['live']]
+        return len(gone) >= 2
     o = out['threaded']['obs']
     return any(c[0] == 'handle' for c in o['log']) and len(o['sent']) > 0
 
